@@ -1158,6 +1158,42 @@ func leafPath(v ssa.Value, d int) string {
 // take the count from.
 func loopCountsAnnounced(c *Ctx, r *Report, rule string) {
 	n := 0
+	// quantities written by any stream writer of the package (the writer may be split into per-record helpers: the level
+	// is written by one of them, the per-level loop lives in another)
+	announcedElsewhere := map[string]bool{}
+	for _, f := range prodFuncs(c, "index") {
+		var w *ssa.Parameter
+		for _, p := range f.Params {
+			if isIOType(p.Type(), "Writer") {
+				w = p
+			}
+		}
+		if w == nil || f.Parent() != nil {
+			continue
+		}
+		eachInstr(f, func(i ssa.Instruction) {
+			cc := plainCall(i)
+			if cc == nil {
+				return
+			}
+			takes := false
+			for _, a := range cc.Args {
+				if strip(a) == ssa.Value(w) {
+					takes = true
+				}
+			}
+			if !takes {
+				return
+			}
+			for _, a := range flatArgs(cc) {
+				if strip(a) != ssa.Value(w) {
+					if lp := leafPath(a, 0); strings.Contains(lp, ".") && !strings.HasPrefix(lp, "param:") {
+						announcedElsewhere[lp+"@"+fnName(f)] = true
+					}
+				}
+			}
+		})
+	}
 	for _, f := range prodFuncs(c, "index") {
 		if f.Parent() != nil {
 			continue
@@ -1270,6 +1306,11 @@ func loopCountsAnnounced(c *Ctx, r *Report, rule string) {
 				n++
 				k++
 				ann := false
+				for key := range announcedElsewhere {
+					if strings.HasPrefix(key, lp+"@") && !strings.HasSuffix(key, "@"+fnName(f)) {
+						ann = true // written by a sibling part of the writer
+					}
+				}
 				for _, wv := range writes {
 					if !wv.paths[lp] || phi.Block().Dominates(wv.in.Block()) {
 						continue // not this quantity, or written inside the loop itself
@@ -1426,6 +1467,30 @@ func headerFieldsStoredBeforeUse(c *Ctx, r *Report, rule string) {
 						return
 					}
 					reads = append(reads, site{structField(fa.X.Type(), fa.Field), i})
+				case *ssa.Call:
+					// a helper method of the same receiver (loadHeader): its direct stores and reads happen at this call
+					g := y.Call.StaticCallee()
+					if g == nil || !modLocal(g) || len(g.Blocks) == 0 || len(g.Params) == 0 || len(y.Call.Args) == 0 || !isRecv(y.Call.Args[0]) || g == f {
+						return
+					}
+					eachInstr(g, func(z ssa.Instruction) {
+						switch w := z.(type) {
+						case *ssa.Store:
+							if fa, ok := w.Addr.(*ssa.FieldAddr); ok && fa.X == ssa.Value(g.Params[0]) {
+								fld := structField(fa.X.Type(), fa.Field)
+								stores = append(stores, site{fld, i})
+								if guardedByFlag(i) {
+									governed[fld] = true
+								}
+							}
+						case *ssa.UnOp:
+							if w.Op == token.MUL {
+								if fa, ok := w.X.(*ssa.FieldAddr); ok && fa.X == ssa.Value(g.Params[0]) {
+									reads = append(reads, site{structField(fa.X.Type(), fa.Field), i})
+								}
+							}
+						}
+					})
 				}
 			})
 		}
@@ -1512,8 +1577,24 @@ func derivedFromNode(v ssa.Value, n ssa.Value, depth int) bool {
 					j = k
 				}
 			}
-			if j < 0 || j >= len(g.Params) {
+			if j >= len(g.Params) {
 				return false
+			}
+			if j < 0 {
+				// not given the node itself (a generated client constructor given the connection): as for a library call
+				for _, a := range y.Call.Args {
+					switch strip(a).(type) {
+					case *ssa.Call, *ssa.Extract, *ssa.Phi, *ssa.Lookup:
+						if !isNilConst(strip(a)) && derivedFromNode(a, n, depth+1) {
+							return true
+						}
+					}
+				}
+				return false
+			}
+			if cur := y.Parent(); cur != nil && fnPkgPath(g) != fnPkgPath(cur) {
+				// the connection layer: Dial(node) is the connection to that node (the address book is C20's subject)
+				return true
 			}
 			for _, rt := range returnsOf(g) {
 				if len(rt.Results) == 0 {
@@ -1734,6 +1815,8 @@ func memberListChangesWithReplica(c *Ctx, r *Report, rule string) {
 func round5(c *Ctx, r *Report, prop string) {
 	switch prop {
 	case "C01":
+		r.Rule("C01.R11", "at most k, and the k nearest: the shape of the beam search and of every k-bounded queue loop (as C07.R8)", 6)
+		beamSearchShape(c, r, "C01.R11")
 		r.Rule("C01.R10", "the entry point is never lost while items remain: no path of the hand-over writes a nil entry point, and the shard-scanning fall-back returns a vertex whenever it saw one (path-sensitive nil analysis)", 1)
 		r.Need("C01.R10", "hand-over-value", "the function that hands the entry point over was not found")
 		entryPointNeverLostWhileItemsRemain(c, r, "C01.R10")
@@ -1759,6 +1842,10 @@ func round5(c *Ctx, r *Report, prop string) {
 		r.Rule("C06.R16", "nothing is written for a group after it was deleted: DeleteGroup runs only after the group's Ready loop (the only writer) has been joined", 1)
 		storageDeletedAfterLoopJoined(c, r, "C06.R16")
 	case "C07":
+		r.Rule("C07.R8", "the shape of the beam search and of every k-bounded queue loop: the beam stops only on a strictly farther candidate, admits on `nearer than the worst` OR `not full`, trims only above ef; selections pop only above k and fill only below k", 6)
+		beamSearchShape(c, r, "C07.R8")
+		r.Rule("C07.R11", "the insert path links the new vertex on every level from min(entry level, own level) down to and including level 0", 1)
+		linkLoopReachesLevelZero(c, r, "C07.R11")
 		r.Rule("C07.R7", "the beam's queues keep every push: Push / Pop of the queue wrapper always reach heap.Push / heap.Pop", 2)
 		queueOpsReachHeap(c, r, "C07.R7")
 	case "C08":
@@ -1783,6 +1870,8 @@ func round5(c *Ctx, r *Report, prop string) {
 	case "C14":
 		r.Rule("C14.R9", "a catalogue change is acknowledged only on its apply outcome (borrowed from C11.R5)", 1)
 		borrow(c, r, "C11", "C11.R5", "C14.R9", "DatasetManager")
+		r.Rule("C14.R11", "restoring a catalogue snapshot brings the datasets it keeps up to the snapshot's replica lists (restore = replay)", 1)
+		restoreRefreshesKeptEntries(c, r, "C14.R11")
 		r.Rule("C14.R10", "deleting a dataset stops its partitions without taking the node down: the partition's log is deleted only after its Ready loop has been joined", 1)
 		storageDeletedAfterLoopJoined(c, r, "C14.R10")
 	case "C16":
@@ -1791,6 +1880,8 @@ func round5(c *Ctx, r *Report, prop string) {
 	case "C17":
 		r.Rule("C17.R7", "a partition's member list changes together with the local replica", 2)
 		memberListChangesWithReplica(c, r, "C17.R7")
+		r.Rule("C17.R9", "every node agrees on who hosts a partition (and therefore where its size is counted): a catalogue restore refreshes the replica lists of the datasets it keeps", 1)
+		restoreRefreshesKeptEntries(c, r, "C17.R9")
 		r.Rule("C17.R8", "accumulators handed to lookup goroutines are never reset afterwards", 2)
 		accumulatorsNotResetAfterSpawn(c, r, "C17.R8")
 	case "C18":
@@ -1951,5 +2042,78 @@ func storageDeletedAfterLoopJoined(c *Ctx, r *Report, rule string) {
 	}
 	if n == 0 {
 		r.Unk(rule, "storage", "DeleteGroup", "-", "no call deleting a group's log found")
+	}
+}
+
+// ---- restoring a catalogue snapshot refreshes the entries it keeps (D28) ------------------------------------------------
+
+// restoreRefreshesKeptEntries: where the catalogue's restore function keeps a dataset object it already has (the value
+// looked up in the previous map is stored into the new one) instead of building it from the snapshot, it hands that object
+// to a function that rewrites the partitions' member lists — the only part of a dataset description that changes after
+// creation. Otherwise a node that is caught up by a snapshot keeps the replica assignment it had before, and differs from
+// every node that applied the log.
+func restoreRefreshesKeptEntries(c *Ctx, r *Report, rule string) {
+	ro := discoverRoles(c)
+	fNodeIds := c.Field("protobuf", "Partition", "NodeIds")
+	fDatasets := c.Field("storage", "DatasetManager", "datasets")
+	if fNodeIds == nil || fDatasets == nil {
+		r.Unk(rule, "storage", "anchors", "-", "Partition.NodeIds / DatasetManager.datasets not found")
+		return
+	}
+	writesMembers := func(g *ssa.Function) bool {
+		for h := range c.reachableFrom([]*ssa.Function{g}, false, true) {
+			hit := false
+			eachInstr(h, func(i ssa.Instruction) {
+				if st, ok := i.(*ssa.Store); ok && fieldOfAddr(st.Addr) == fNodeIds {
+					hit = true
+				}
+			})
+			if hit {
+				return true
+			}
+		}
+		return false
+	}
+	n := 0
+	for _, f := range ro.restoreFns {
+		if f.Signature.Recv() == nil || typeName(f.Signature.Recv().Type()) != "DatasetManager" {
+			continue
+		}
+		k := 0
+		eachInstr(f, func(i ssa.Instruction) {
+			mu, ok := i.(*ssa.MapUpdate)
+			if !ok || fieldOfValueDeep(mu.Map) != fDatasets {
+				return
+			}
+			var kept ssa.Value
+			for _, o := range origins(mu.Value, originOpt{}) {
+				if ex, isEx := o.(*ssa.Extract); isEx {
+					if lk, isL := ex.Tuple.(*ssa.Lookup); isL && lk.CommaOk {
+						kept = ex
+					}
+				}
+			}
+			if kept == nil {
+				return
+			}
+			n++
+			k++
+			refreshed := false
+			eachInstr(f, func(z ssa.Instruction) {
+				cl, ok := z.(*ssa.Call)
+				if !ok || cl.Call.StaticCallee() == nil || !modLocal(cl.Call.StaticCallee()) {
+					return
+				}
+				for _, a := range cl.Call.Args {
+					if strip(a) == kept && len(cl.Call.Args) > 1 && writesMembers(cl.Call.StaticCallee()) {
+						refreshed = true
+					}
+				}
+			})
+			r.Check(refreshed, rule, fnName(f), fmt.Sprintf("kept-entry-refreshed#%d", k), c.InstrPos(mu), "a dataset the restore keeps (instead of rebuilding it from the snapshot) is brought up to the snapshot's replica lists: a node caught up by a snapshot otherwise keeps the assignment it had before and disagrees with every node that applied the log — about who hosts a partition, who may modify it, and where its size is counted")
+		})
+	}
+	if n == 0 {
+		r.OKTrivial(rule, "storage.DatasetManager", "kept-entries", "-", "the restore function keeps no existing entry (everything is rebuilt from the snapshot)")
 	}
 }
